@@ -57,6 +57,7 @@ MUTANTS['C14'] = [
 ]
 
 MUTANTS['C17'] = [
+  ('buffered-count-after-the-yield', [(C, "                buffered_count -= len(data)\n                yield data\n                buckets.pop(j)", "                yield data\n                buffered_count -= len(data)\n                buckets.pop(j)")]),
   ('assess-ignores-total-size', [(C, "            and ((len(self.data) + 1) * max(self.max_len, seq_len)\n                 > self.max_total_size)", "            and False")]),
   ('expiry-off-by-one', [(C, "if (i - creation_idx) >= self.expiration:", "if (i - creation_idx) > self.expiration:")]),
   ('buffer-limit-off-by-one', [(C, "while buffered_count > self.max_buffered_examples:", "while buffered_count > self.max_buffered_examples + 1:")]),
